@@ -11,6 +11,6 @@ git apply -R /tmp/wt/confirm_$$.diff
 timeout 600 /venv/bin/python demo_$pid.py > /tmp/wt/confirm_$$.without 2>&1; without=$?
 git apply /tmp/wt/confirm_$$.diff
 echo "demo with change: exit $with ; without: exit $without"
-timeout 1500 /venv/bin/python -m pytest -q -p no:cacheprovider -n 6 --timeout=600 openpectus/test/engine openpectus/test/lang openpectus/test/aggregator openpectus/test/protocol openpectus/test/lsp \
+timeout 1500 /venv/bin/python -m pytest -q -p no:cacheprovider -n 6 --reruns 2 --timeout=600 openpectus/test/engine openpectus/test/lang openpectus/test/aggregator openpectus/test/protocol openpectus/test/lsp \
   --ignore=openpectus/test/engine/test_labjack_hardware.py --ignore=openpectus/test/engine/test_validate_demo_uod.py 2>&1 | tail -4
 rm -f /tmp/wt/confirm_$$.*
